@@ -42,6 +42,16 @@ def gen(rng, i, tier):
     ninputs = rng.choice([0, 1, 1, 2, 3, 4])
     inputs = [[G.random_value(rng, t) for t in var_types] for _ in range(ninputs)]
     pool = []
+    if name == "lists" and rng.random() < 0.25:
+        # two list arguments, inputs that are swaps of each other: programs whose per-input list
+        # outputs differ but are the same when glued together ([] , [7]) vs ([7] , [])
+        var_types = [("list", "int"), ("list", "int")]
+        a = [rng.choice([7, 3, 1]) for _ in range(rng.choice([1, 1, 2]))]
+        b = rng.choice([[], [], [rng.choice([2, 5])]])
+        inputs = [[a, b], [b, a]] + ([[a, a]] if rng.random() < 0.3 else [])
+        pool = [("V", 0), ("V", 1), ("A", ("P", "tail"), [("A", ("P", "cons"), [("P", "0"), ("V", 0)])]),
+                ("A", ("P", "tail"), [("A", ("P", "cons"), [("P", "1"), ("V", 1)])])]
+        rng.shuffle(pool)
     rtypes = ["int"] if name == "arith" else ["int", ("list", "int"), ("list", ("list", "int"))]
     for _ in range(rng.randint(3, 14)):
         t = G.random_term(rng, spec, var_types, rng.choice(rtypes), rng.randint(1, 4))
@@ -96,15 +106,29 @@ def impl_expr(e, natoms):
         def accept(self, obj):
             return obj[self.i]
 
+    made = []        # every intermediate filter object with the expression it was built for
+
     def build(e):
         if e[0] == "a":
-            return Atom(e[1])
-        if e[0] == "and":
-            return build(e[1]) & build(e[2])
-        if e[0] == "or":
-            return build(e[1]) | build(e[2])
-        return -build(e[1])
-    return build(e)
+            f = Atom(e[1])
+        elif e[0] == "and":
+            f = build(e[1]) & build(e[2])
+        elif e[0] == "or":
+            f = build(e[1]) | build(e[2])
+        else:
+            f = -build(e[1])
+        made.append((e, f))
+        return f
+    root = build(e)
+    # a user keeps intermediate filters and goes on combining them: reuse every intermediate
+    # object once more as the left operand of & and | (the results are checked, and so are the
+    # intermediates afterwards: combining must not change its operands)
+    extra = []
+    for (se, sf) in list(made):
+        if se[0] in ("and", "or"):
+            extra.append((["and", se, ["a", 0]], sf & Atom(0)))
+            extra.append((["or", se, ["a", 0]], sf | Atom(0)))
+    return root, made + extra
 
 
 def sem(e, obj):
@@ -138,8 +162,9 @@ def check_expr(case, M):
     e = json.loads(json.dumps(e))
     failures = []
     natoms = 1 + max([0] + [x for x in _atoms(e)])
+    made = []
     try:
-        f = impl_expr(e, natoms)
+        f, made = impl_expr(e, natoms)
         built = None
     except RecursionError:
         f = None
@@ -168,6 +193,19 @@ def check_expr(case, M):
             break
         if (acc, rej) != (macc, mrej):
             failures.append({"kind": "corr", "what": "accept/reject bits differ from model", "detail": f"impl={(acc, rej)} model={(macc, mrej)}"})
+            break
+        bad = None
+        for se, sf in made:
+            try:
+                if bool(sf.accept(obj)) != bool(sem(se, obj)) or bool(sf.reject(obj)) == bool(sem(se, obj)):
+                    bad = se
+                    break
+            except Exception as ex:  # noqa
+                bad = se
+                break
+        if bad is not None:
+            failures.append({"kind": "oracle", "what": "an intermediate filter no longer accepts its own Boolean combination after being combined further",
+                             "detail": f"sub-expression {dump(wire_expr(bad))} on obj={obj[:natoms]}"})
             break
     tags = ["expr", "expr.nested-both-sides" if nest(e) else "expr.flat", f"expr.depth{_depth(e)}"]
     return {"key": "expr:" + json.dumps(e), "nontrivial": _depth(e) >= 2, "tags": tags, "failures": failures,
@@ -265,6 +303,8 @@ def check_obseq(case, M):
         tags.append("obseq.has-repetition")
     if any(o is not None and any(s.startswith("[[") for s in o) for o in outs):
         tags.append("obseq.list-of-lists-output")
+    if len(inputs) >= 2 and len(var_types) == 2 and inputs[0] == inputs[1][::-1] and inputs[0][0] != inputs[0][1]:
+        tags.append("obseq.swapped-list-inputs")
     nontrivial = n_acc >= 1 and n_rej_dup >= 1
     return {"key": "obseq:" + json.dumps([case["dsl"], case["inputs"], [G.term_str(pool[i]) for i in case["seq"]]]),
             "nontrivial": nontrivial, "tags": tags, "failures": failures,
